@@ -139,16 +139,17 @@ if _parse_version(_np.__version__) < _MIN_NUMPY_VERSION:
 	}
 
 	unions := make(map[string]interface{})
+	aliased := make(map[*dsl.GeneralizedType]bool)
 	dsl.Visit(ns, func(self dsl.Visitor, node dsl.Node) {
 		switch node := node.(type) {
 		case *dsl.NamedType:
-			if gt, ok := node.Type.(*dsl.GeneralizedType); ok && gt.Cases.IsUnion() {
+			if own := common.UnionOfNamedType(node); own != nil {
 				// We use the alias name for the union type, which will be imported
-				// below.
-				return
+				// below (unions nested inside it have classes of their own).
+				aliased[own] = true
 			}
 		case *dsl.GeneralizedType:
-			if node.Cases.IsUnion() {
+			if node.Cases.IsUnion() && !aliased[node] {
 				unionClassName, _ := common.UnionClassName(node)
 				if _, ok := unions[unionClassName]; !ok {
 					unions[unionClassName] = nil
